@@ -171,6 +171,48 @@ class Gen:
             self.steps.append("C ifchange k0 %s" % t)      # d is a source now: one rebuild at most, then nothing
         self.count("orphan_episode")
 
+    def override_gone_episode(self):
+        """a generated target is edited by hand, a build notices it (override recorded), then the file is
+        removed and the listing commands are asked BEFORE the next build: the name is a target that
+        the next redo-ifchange will rebuild, so redo-ood / redo-targets must list it (seeded change c17-c)"""
+        r = self.r
+        cands = [t for t in self.targets if t + ".do" in self.scripts and not self.scripts[t + ".do"].get("exit")
+                 and self.scripts[t + ".do"].get("out") in ("S", "3")]
+        if not cands:
+            return
+        t = r.choice(cands)
+        self.steps.append("C ifchange k0 %s" % t)
+        self.steps.append("W %s %d" % (t, self.newtok()))
+        self.steps.append("C %s k0 %s" % (r.choice(["ifchange", "ifchange", "redo"]), t))     # "you modified it"
+        if r.random() < 0.3:
+            self.steps.append("W %s %d" % (t, self.newtok()))                                  # edited again
+            self.steps.append("C ifchange k0 %s" % t)
+        self.steps.append("R %s" % t)
+        for q in r.sample(["ood", "targets", "sources"], r.randint(2, 3)):
+            self.steps.append("C %s k0 -" % q)
+        self.steps.append("C ifchange k0 %s" % t)
+        self.steps.append("C %s k0 -" % r.choice(["ood", "targets"]))
+        self.count("override_gone_episode")
+
+    def reversed_dep_episode(self):
+        """a dependency is turned round: rb needed ra; then ra needs rb and rb no longer needs ra.  The
+        scripts are acyclic at all times; rb's recorded edge rb -> ra is met while ra is in mid-build
+        (finding F66: that was reported as a cycle, 208)"""
+        r = self.r
+        base = {"ifc": [], "always": 0, "stamp": r.choice([0, 0, 1]), "out": r.choice(["S", "3"]), "cat": r.choice([0, 1]), "exit": 0, "tol": 0}
+        self.emit_do("ra.do", dict(base, deps=["s0"], payload=self.newtok()))
+        self.emit_do("rb.do", dict(base, deps=["ra"], stamp=0, payload=self.newtok()))
+        first = r.choice([["ra", "rb"], ["rb"], ["ra,rb"], ["rb,ra"]])
+        for c in first:
+            self.steps.append("C ifchange k0 %s" % c)
+        self.emit_do("ra.do", dict(base, deps=["s0", "rb"], payload=self.newtok()))
+        self.emit_do("rb.do", dict(base, deps=r.choice([[], ["s1"]]), stamp=0, payload=self.newtok()))
+        if r.random() < 0.5:
+            self.steps.append("W s0 %d" % self.newtok())
+        self.steps.append("C ifchange k0 %s" % r.choice(["ra", "ra,rb", "rb,ra", "rb"]))
+        self.steps.append("C ifchange k0 ra,rb")
+        self.count("reversed_dep_episode")
+
     def oob_cycle_episode(self):
         """T -> (m ->) d, d checksummed over a source; after a good build the source changes and d starts
         to ask for T (or m): the cycle closes while d is rebuilt out of band (finding F21)"""
@@ -202,6 +244,10 @@ class Gen:
             self.oob_cycle_episode()
         if self.profile in ("failures", "general", "override") and r.random() < (0.35 if self.profile == "failures" else 0.12):
             self.orphan_episode()
+        if self.profile in ("general", "override") and r.random() < 0.2:
+            self.override_gone_episode()
+        if self.profile in ("general", "cycles") and r.random() < (0.4 if self.profile == "cycles" else 0.12):
+            self.reversed_dep_episode()
         for _ in range(nsteps):
             x = r.random()
             if x < 0.38:
